@@ -218,7 +218,10 @@ def gen(chk):
         out.append(("dag-%d" % k, s, {"expect": "terminates", "delegations": edges, "updates": 1, "shared": k >= 2}))
     # (g) legitimate repositories whose delegated role is larger than targets.json, any depth
     for pad in (0, 500, 5000, 200000):
-        for pin in ("exact", None):
+        # the length of targets.json and the lengths of the delegated roles are listed (or not) independently: a
+        # role whose length the snapshot does not list is bounded by the configured limit, not by anything
+        # listed for targets.json
+        for pin, pin_d in (("exact", "exact"), (None, None), ("exact", None), (None, "exact")):
             for depth in (1, 2, 3):
                 s = scen.Scen()
                 dl = []
@@ -232,9 +235,21 @@ def gen(chk):
                     prev = name
                 r, ts, snap, tgt, files = repo_with(
                     s, tgt_kw={"delegations": deleg([7], [drole("lvl1", paths=("d/*",))])},
-                    delegated=dl, len_mode=pin, deleg_len=pin)
+                    delegated=dl, len_mode=pin, deleg_len=pin_d)
                 s.cycle(r, files)
                 out.append(("legit-large-delegated", s, {"expect": "ok"}))
+    # (g2) the configured limit applies to a delegated role whose length the snapshot does not list, also when
+    # targets.json is longer than that limit and has its own length listed: one byte more than the limit is refused,
+    # exactly the limit is accepted
+    for delta, want in ((-1, "maxsize"), (0, "ok")):
+        for cs in (False, True):
+            s = scen.Scen()
+            d1 = s.targets(version=1, targets=[{"name": "d/x", "content": "x"}], sigs=scen.valid([7]), pad=300)
+            r, ts, snap, tgt, files = repo_with(
+                s, cs=cs, tgt_kw={"delegations": deleg([7], [drole("d1", paths=("d/*",))]), "pad": 3000},
+                delegated=[("d1", d1)], len_mode="exact", deleg_len=None)
+            s.cycle(r, files, limits={"targets": {"of": d1, "delta": delta}})
+            out.append(("unlisted-delegated-vs-limit", s, {"expect": want}))
     # random mixtures
     n = 150 if chk.tier == "quick" else 3000
     for _ in range(n):
